@@ -504,6 +504,34 @@ def run(ctx):
                    "are changed following a first evaluation", not mut_bad,
                    "%d of %d objects fail; first: %s" % (len(mut_bad), 4 if quick else 20, [m[1][:1] for m in mut_bad[:1]]))
 
+    # ---- a fluid written to a file and read back is the same fluid (window, floor, laminar cut-off and value) ----
+    import tempfile
+    from srlife.thermohydraulics import thermalfluid as _tf
+    rt_bad = []
+    rspecs = [s_ for s_ in specs_rand if s_ is not None][: (6 if quick else 40)]
+    for k_rt, spec in enumerate(rspecs):
+        mat = make_fluid(spec)
+        num0 = fluid_numbers(mat)
+        with tempfile.TemporaryDirectory() as dtmp:
+            fn = os.path.join(dtmp, "fluid.xml")
+            mat.save(fn, "m")
+            mat2 = _tf.ThermalFluidMaterial.load(fn, "m")
+        num1 = fluid_numbers(mat2)
+        ctx.case(("file-roundtrip", k_rt), nontrivial=True, tag="fluid written to XML and read back")
+        diff = [k for k in num0 if (list(num0[k]) != list(num1[k]) if isinstance(num0[k], (list, tuple)) else
+                                    not (num0[k] == num1[k] or abs(num0[k] - num1[k]) <= 1e-15 * abs(num0[k])))]
+        if diff:
+            # where does it matter: a point below the written cut-off / outside the written window
+            T = np.array(temps(rng, num0, 6)[:6], dtype=float)
+            u = np.array(velocities(rng, 6)[:6], dtype=float)
+            r_ = np.array(radii(rng, 6)[:6], dtype=float)
+            a, b = run_real(mat, T, u, r_), run_real(mat2, T, u, r_)
+            worst = float(np.nanmax(np.abs(np.array(a["film"]) - np.array(b["film"])) / (np.abs(np.array(a["film"])) + 1e-300)))
+            rt_bad.append(({"fluid": spec, "roundtrip": True}, "after save -> load the fluid's %s changed: %s -> %s (film coefficient differs by up to %.3g relative on probe points)" % (
+                diff, {k: num0[k] for k in diff}, {k: num1[k] for k in diff}, worst)))
+    ctx.obligation("a fluid saved to XML and loaded back has the same polynomials, window, floor, laminar cut-off and laminar value",
+                   not rt_bad, "%d of %d differ; first: %s" % (len(rt_bad), len(rspecs), [m[1][:300] for m in rt_bad[:1]]))
+
     # ---- monotonicity in u on turbulent sweeps (real code) ----
     sw_specs = specs + [s for s in specs_rand if s is not None][: (6 if quick else 60)]
     sw_fail, sw_n = monotone_sweeps(ctx, rng, sw_specs, 3 if quick else 12, 60 if quick else 200)
@@ -557,6 +585,9 @@ def run(ctx):
                       {"fluid": mats[si][2], "T": T, "u": u, "r": r, "all_failures": pb,
                        "n_failing_cases": len(pred_bad), "n_cases": len(cases)},
                       signature="c18:" + pb[0].split(" ")[0])
+    elif rt_bad:
+        rep_, msg = rt_bad[0]
+        ctx.violation("real thermalfluid code: " + msg, rep_, signature="c18:file-roundtrip")
     elif mut_bad:
         rep_, pb = mut_bad[0]
         ctx.violation("real thermalfluid code, parameters changed after a first evaluation: " + pb[0],
@@ -587,6 +618,19 @@ def replay(obj):
         print("replay names no input:", r)
         return 1
     mat = make_fluid(r["fluid"])
+    if r.get("roundtrip"):
+        import tempfile
+        from srlife.thermohydraulics import thermalfluid as _tf
+        with tempfile.TemporaryDirectory() as dtmp:
+            fn = os.path.join(dtmp, "fluid.xml")
+            mat.save(fn, "m")
+            mat2 = _tf.ThermalFluidMaterial.load(fn, "m")
+        a, b = fluid_numbers(mat), fluid_numbers(mat2)
+        bad = [k for k in a if str(a[k]) != str(b[k])]
+        for k in bad:
+            print("  FAILS: %s written %r, read back %r" % (k, a[k], b[k]))
+        print("property holds on this input" if not bad else "property violated on this input")
+        return 1 if bad else 0
     if r.get("mutated"):
         fu = r["first_use"]
         run_real(mat, fu["T"], fu["u"], fu["r"])
